@@ -206,8 +206,11 @@ def oracle(doc, sp, text, info, with_tools=None):
         pass  # unreadable canonical text is already reported by the emit stage
     _N["n"] += 1
     if with_tools if with_tools is not None else (_N["n"] % 3 == 0):
+        import zlib
+
+        prof = ["STANDARD", "LENIENT", "ULTRA", "STRICT"][(zlib.crc32(text.encode("utf-8", "surrogatepass")) >> 3) % 4]  # (whatever a profile repairs, it is not zone content)
         for fix in (False, True):
-            r = tools.validate(content=text, schema="META", fix=fix)
+            r = tools.validate(content=text, schema="META", fix=fix, profile=prof)
             if r.get("status") == "success" and isinstance(r.get("canonical"), str):
                 fails += _cmp(f"validate-fix-{str(fix).lower()}", wf, wz, r["canonical"])
             else:
